@@ -21,11 +21,14 @@ func TestMain(m *testing.M) {
 			"permission revoked, permission downgraded, idle-expired, age-expired, expired token). TestMatrix/TestExpired walk all cells on a real in-process server " +
 			"(production Initialize/Start path over bufconn); TestCellsRandom draws cells and payload variation with rapid in random order; TestCredentialHistories generates, per case, a fresh " +
 			"user and a random interleaving of its logins/sessions/database switches/SQL transactions/reads/writes with administrators' grant/revoke/deactivate/activate/password changes. " +
+			"TestStreamConversations: for every bidirectional RPC (several requests on ONE open stream; table conversations(), a bidi RPC without entry fails) a generated user opens the stream while authorized, is served, " +
+			"then its credential state changes (revoke, downgrade, deactivate, password change, CloseSession/Logout; TestExpired: idle/age expiry) and further requests go over the SAME stream, plus fresh streams; " +
+			"each request is judged by the model and by a fresh call of the unary twin with the same credential (served on the stream but refused there = violation). " +
 			"Oracle (one-directional): caller below the required level => error AND zero response messages AND unchanged fingerprint (tx id + state hash of every database incl. systemdb, " +
 			"load state, session count); independent of the table: a database may change only if the caller currently holds >=RW on it (systemdb only by a permitted administrative request), " +
 			"content markers of a database may appear in a response only if the caller holds >=R on it. " +
 			"NON-TRIVIAL: a denied cell whose permitted twin (same request builder, sufficiently privileged principal) was observed to change state or be answered; " +
-			"a history with a write attempt the model refuses plus an accepted write or an administrative change. DISTINCT: hash of method/variant/principal(+drawn payload choices) or of the history trace.",
+			"a history with a write attempt the model refuses plus an accepted write or an administrative change; a conversation with a request on the same stream after an event that followed a served request. DISTINCT: hash of method/variant/principal(+drawn payload choices) or of the history trace.",
 		Assumptions: []string{
 			"Health, ServerInfo, Login and OpenSession are public by design (ServerInfo's server-wide counters are not treated as database content)",
 			"permitted cells are not asserted to succeed (one-directional property); they only provide the effective-twin evidence",
@@ -37,6 +40,7 @@ func TestMain(m *testing.M) {
 			"expiry is established by polling the server's own session manager (SessionPresent): fixture 'idle' = 1.5s inactivity timeout, no age limit; fixture 'age' = 10s age limit with the session kept active; guard every 10ms; a session the server still knows 90s later is reported as 'sessions do not expire'",
 			"token expiry is exercised with TokenExpiryTimeMin=-1 (tokens are issued already expired), no wall-clock wait",
 			"pgsql wire protocol, REST gateway, mTLS and the embedded web console are not driven; maintenance mode (auth off) is out of scope of the auth-on matrix",
+			"client-streaming RPCs (streamSet, streamVerifiableSet, streamExecAll, replicateTx) carry one request split over several messages and are authorized when the call starts; nothing is claimed about a credential change in the middle of such a request",
 			"DB-level side channels (timing, error text) are not examined",
 		},
 		Probes: []vk.Probe{
